@@ -72,7 +72,7 @@ def vtBeh (plugin : Str) (command rest : List Str) : Act :=
   | _ => ⟨false, .silent⟩
 
 def vtHelp (command : List Str) : Str :=
-  txt "(" ++ joinStr (txt " ") command ++ txt " <anything>) -- Synthetic C14 command " ++
+  txt "(\x02" ++ joinStr (txt " ") command ++ txt " <anything>\x02) -- Synthetic C14 command " ++
     command.getLast?.getD [] ++ txt "."
 
 def DState.evCfg (s : DState) : EvCfg :=
